@@ -1,5 +1,6 @@
 import PoxModel.Base.Proto
 import PoxModel.Model.MatchV
+import PoxModel.Model.FlowTableQ
 import PoxModel.Spec.OF10Match
 import PoxModel.Spec.OF10Frame
 /-! Line-protocol driver for C03: evaluates the model (`Model/Match`, `Model/FlowTable`) and, separately, the specification
@@ -14,8 +15,11 @@ Every request carries `"v":[arpLow8, prereqExact, exactSig, tosDscp, arpTypeGuar
     → `{"order":[original index…],"eff":[effective priority…],"exact":[is_exact per original entry…],"lookups":[original index | null…],
         "spec":[[matchHdr per original entry…] per frame],"rank":[Spec.rankSig per original entry]}`
 
-* `{"op":"tableops","sm":bool,"ops":[["add",id,priority,rec,idle_s,hard_s,now_ms] | ["remove",id] | ["rm_match",rec,priority,strict] |
-     ["expire",now_ms] | ["lookup",P,port],…]}` → `{"trace":[["t",raised,[ids in table order]] | ["l",id|null],…]}`
+* `{"op":"tableops","sm":bool,"ops":[["add",id,priority,rec,idle_s,hard_s,now_ms,out?] | ["remove",id] | ["rm_match",rec,priority,strict] |
+     ["expire",now_ms] | ["lookup",P,port] | ["q","select",rec,out_port|null] | ["q","all"] | ["q","other"],…]}`
+    → `{"trace":[["t",raised,[ids in table order]] | ["l",id|null] | ["q",raised,[ids in table order],[ids the query reports on, table order]],…]}`
+    (`out` = the port of the entry's output action, null/absent = no output action; a `"q"` op is a call that only reads:
+    `TableOps.Query`, `TableOps.stepC`)
 
 * `{"op":"selfflow","phdr":P,"port":n|null,"swport":n,"sf":bool,"blank":[1..12]?}` → `{"m":[wildcards, 12 views],"wire":rec,"m2w":wildcards after
      unpack,"hit":0|1,"exact":0|1,"spec":0|1}`
@@ -149,6 +153,7 @@ structure TD where
   idle : Nat
   hard : Nat
   created : Nat
+  out : Option Nat := none      -- port of the entry's output action (what an `out_port` filter looks at)
 
 /-- `is_idle_timed_out(now) or is_hard_timed_out(now)` for an entry that was never touched -/
 def deadAt (now : Nat) (e : Entry TD) : Bool :=
@@ -166,19 +171,38 @@ def doTableOps (j : J) : Except String J := do
     | [J.str "add", id, pr, r, idle, hard, now] =>
       let e : Entry TD := { priority := (← pr.asNat), mtch := v.ofWire (← recOf r),
                             data := { id := (← id.asNat), idle := (← idle.asNat), hard := (← hard.asNat), created := (← now.asNat) } }
-      let (t, raised) := TableOps.step v.effectivePriority v.mww sm tbl (.add e)
+      let (t, raised) := TableOps.stepC v.effectivePriority v.mww sm tbl (.op (.add e))
       pure (t, J.arr [J.str "t", jb raised, ids t] :: out)
+    | [J.str "add", id, pr, r, idle, hard, now, op] =>
+      let o ← (if op.isNull then pure none else do pure (some (← op.asNat)))
+      let e : Entry TD := { priority := (← pr.asNat), mtch := v.ofWire (← recOf r),
+                            data := { id := (← id.asNat), idle := (← idle.asNat), hard := (← hard.asNat), created := (← now.asNat), out := o } }
+      let (t, raised) := TableOps.stepC v.effectivePriority v.mww sm tbl (.op (.add e))
+      pure (t, J.arr [J.str "t", jb raised, ids t] :: out)
+    | J.str "q" :: rest =>
+      let q : TableOps.Query TD ← (match rest with
+        | [J.str "select", r, op] => do
+          let m := v.ofWire (← recOf r)
+          if op.isNull then pure (TableOps.Query.select m (fun _ => true))
+          else do
+            let k ← op.asNat
+            pure (TableOps.Query.select m (fun d => d.out == some k))
+        | [J.str "all"] => pure TableOps.Query.all
+        | [J.str "other"] => pure TableOps.Query.other
+        | _ => bad "tableops: q")
+      let (t, raised) := TableOps.stepC v.effectivePriority v.mww sm tbl (.query q)
+      pure (t, J.arr [J.str "q", jb raised, ids t, ids (TableOps.answer v.mww sm tbl q)] :: out)
     | [J.str "remove", id] =>
       let k ← id.asNat
       let i := tbl.findIdx (fun e => e.data.id == k)          -- `tbl.length` when the object is not in the table
-      let (t, raised) := TableOps.step v.effectivePriority v.mww sm tbl (.removeAt i)
+      let (t, raised) := TableOps.stepC v.effectivePriority v.mww sm tbl (.op (.removeAt i))
       pure (t, J.arr [J.str "t", jb raised, ids t] :: out)
     | [J.str "rm_match", r, pr, strict] =>
-      let (t, raised) := TableOps.step v.effectivePriority v.mww sm tbl (.removeMatching (v.ofWire (← recOf r)) (← pr.asNat) (← strict.asBool) (fun _ => true))
+      let (t, raised) := TableOps.stepC v.effectivePriority v.mww sm tbl (.op (.removeMatching (v.ofWire (← recOf r)) (← pr.asNat) (← strict.asBool) (fun _ => true)))
       pure (t, J.arr [J.str "t", jb raised, ids t] :: out)
     | [J.str "expire", now] =>
       let n ← now.asNat
-      let (t, raised) := TableOps.step v.effectivePriority v.mww sm tbl (.expire (deadAt n))
+      let (t, raised) := TableOps.stepC v.effectivePriority v.mww sm tbl (.op (.expire (deadAt n)))
       pure (t, J.arr [J.str "t", jb raised, ids t] :: out)
     | [J.str "lookup", ph, port] =>
       let hit := (v.entryForPacket tbl (← phdrOf ph) (← port.asNat)).map (·.data.id)
